@@ -264,6 +264,18 @@ impl Routine for Index {
         Ok(o)
     }
 
+    fn follow_up(h: &IndexHist, dir: &Path) -> Option<Result<Obs, String>> {
+        // later session: load, merge the update sections into the sorted sections (the bucket files
+        // get SHORTER: no 64 KiB-aligned update section any more), save, and observe with a fresh instance
+        Some((|| {
+            let mut m = load(dir)?;
+            m.flush_all_updates().map_err(|e| format!("follow-up flush_all_updates: {e}"))?;
+            m.save_all().map_err(|e| format!("follow-up save_all: {e}"))?;
+            drop(m);
+            Self::observe(h, dir)
+        })())
+    }
+
     fn site_class(snap: &Snapshot, _before: &Files) -> String {
         crate::generic_site_class(snap)
     }
